@@ -28,6 +28,9 @@ type Diag struct {
 	Code     string
 	Analyzer string
 	Message  string
+	// as the drivers print it (adjusted by //line directives)
+	AdjFile         string
+	AdjLine, AdjCol int
 }
 
 type PkgResult struct {
@@ -180,7 +183,9 @@ func Analyze(roots []*packages.Package, sequential, sanity bool) (map[string]*Pk
 					code = d.Message[i+1 : i+j]
 				}
 			}
-			r.Diags = append(r.Diags, Diag{Pos: d.Pos, File: p.Filename, Line: p.Line, Col: p.Column, Code: code, Analyzer: act.Analyzer.Name, Message: d.Message})
+			ap := act.Package.Fset.Position(d.Pos)
+			r.Diags = append(r.Diags, Diag{Pos: d.Pos, File: p.Filename, Line: p.Line, Col: p.Column, Code: code, Analyzer: act.Analyzer.Name, Message: d.Message,
+				AdjFile: ap.Filename, AdjLine: ap.Line, AdjCol: ap.Column})
 		}
 	}
 	for _, r := range out {
